@@ -2,17 +2,17 @@
 
 // C03 — acknowledged uploads survive graceful shutdown and committed epochs.
 //
-//   shutdown/*  uploaders, both syncer loops and a shutdown thread (cancels the context at ANY point:
-//               its position is part of the schedule search). After ProcessBlockPut returned false and
-//               everything is quiescent the store is restarted from the media with the same geometry.
-//               Oracle: every Put that returned nil and that the live store still held is served with
-//               identical bytes after restart; a Put issued after the final sync fails with UNAVAILABLE;
-//               no Put is acknowledged after ProcessBlockPut returned.
-//   commit/*    every sequence (depth bound) over {uploads, reads that may refresh, one syncer step of
-//               each kind}; after every completed commit (data sync + state write), and after any
-//               number of following operations that wrote nothing, the process "crashes" (all issued
-//               I/O survives), the store is restarted and every object acknowledged before the commit
-//               started and not rotated out must be served.
+//	shutdown/*  uploaders, both syncer loops and a shutdown thread (cancels the context at ANY point:
+//	            its position is part of the schedule search). After ProcessBlockPut returned false and
+//	            everything is quiescent the store is restarted from the media with the same geometry.
+//	            Oracle: every Put that returned nil and that the live store still held is served with
+//	            identical bytes after restart; a Put issued after the final sync fails with UNAVAILABLE;
+//	            no Put is acknowledged after ProcessBlockPut returned.
+//	commit/*    every sequence (depth bound) over {uploads, reads that may refresh, one syncer step of
+//	            each kind}; after every completed commit (data sync + state write), and after any
+//	            number of following operations that wrote nothing, the process "crashes" (all issued
+//	            I/O survives), the store is restarted and every object acknowledged before the commit
+//	            started and not rotated out must be served.
 package main
 
 import (
@@ -52,9 +52,10 @@ func inst(g lstore.Geometry) string {
 	return ""
 }
 
-func shutdownBody(g lstore.Geometry, uploads [][]string, lateUpload bool) func() {
+func shutdownBody(g lstore.Geometry, uploads [][]string, lateUpload bool, dirFaults int) func() {
 	return func() {
 		med := lstore.NewMedia(g)
+		med.Dir.Faults = dirFaults // transient failures of state-directory operations (also of the final state write)
 		ctx, cancel := context.WithCancel(context.Background())
 		defer cancel()
 		exited := false
@@ -274,16 +275,18 @@ func main() {
 		g       lstore.Geometry
 		uploads [][]string
 		late    bool
+		faults  int
 	}
 	for _, x := range []sd{
-		{"one-uploader", geometry(false, true, 1), [][]string{{"A3", "C8"}}, false},
-		{"one-uploader-late-put", geometry(false, true, 1), [][]string{{"A3"}}, true},
-		{"two-uploaders", geometry(false, true, 1), [][]string{{"A3", "B5"}, {"D4", "E0"}}, false},
-		{"rotation", geometry(false, true, 1), [][]string{{"C8", "F8", "G8"}}, false},
-		{"rotation-two-uploaders", geometry(false, true, 2), [][]string{{"C8", "F8"}, {"G8", "A3"}}, false},
-		{"hierarchical", geometry(true, true, 1), [][]string{{"A3", "C8"}, {"B5"}}, false},
+		{"one-uploader", geometry(false, true, 1), [][]string{{"A3", "C8"}}, false, 0},
+		{"one-uploader-state-fault", geometry(false, true, 1), [][]string{{"A3"}}, false, 1},
+		{"one-uploader-late-put", geometry(false, true, 1), [][]string{{"A3"}}, true, 0},
+		{"two-uploaders", geometry(false, true, 1), [][]string{{"A3", "B5"}, {"D4", "E0"}}, false, 0},
+		{"rotation", geometry(false, true, 1), [][]string{{"C8", "F8", "G8"}}, false, 0},
+		{"rotation-two-uploaders", geometry(false, true, 2), [][]string{{"C8", "F8"}, {"G8", "A3"}}, false, 0},
+		{"hierarchical", geometry(true, true, 1), [][]string{{"A3", "C8"}, {"B5"}}, false, 0},
 	} {
-		scs = append(scs, mc.Scenario{Name: "shutdown/" + x.name, Space: fmt.Sprintf("uploaders %v || syncer loops || shutdown thread (late upload after restart point: %v) on %s", x.uploads, x.late, x.g), Bound: bound, Body: shutdownBody(x.g, x.uploads, x.late), Budget: budget, MaxSteps: 60000})
+		scs = append(scs, mc.Scenario{Name: "shutdown/" + x.name, Space: fmt.Sprintf("uploaders %v || syncer loops || shutdown thread (late upload after restart point: %v; state-directory fault budget %d) on %s", x.uploads, x.late, x.faults, x.g), Bound: bound, Body: shutdownBody(x.g, x.uploads, x.late, x.faults), Budget: budget, MaxSteps: 60000})
 	}
 	depth := ev.Pick(r, 5, 7)
 	for _, hier := range []bool{false, true} {
